@@ -118,7 +118,8 @@ Proof.
   - apply clean_ret.
   - apply clean_bind; [apply clean_get|]. intros f. destruct (_ =? _).
     + apply clean_bind; [apply clean_attempt_rejoin|]. intros b. apply clean_when. apply clean_become_undead.
-    + apply clean_bind; [apply clean_when; apply clean_modify|]. intros _. apply clean_gossip.
+    + apply clean_bind; [apply clean_when; apply clean_modify|]. intros _.
+      apply clean_bind; [apply clean_get|]. intros f1. apply clean_when. apply clean_gossip.
   - apply clean_bind; [apply clean_attempt_rejoin|]. intros b. apply clean_when. apply clean_become_undead.
 Qed.
 
@@ -224,7 +225,8 @@ Proof.
   intros F. unfold after_parse.
   apply clean_bind; [apply clean_apply_update|]. intros active.
   destruct (negb active).
-  - apply clean_bind; [apply clean_when; apply clean_handle_self_update|]. intros _.
+  - apply clean_bind; [apply clean_get|]. intros f00.
+    apply clean_bind; [apply clean_when; apply clean_handle_self_update|]. intros _.
     apply clean_bind; [apply clean_get|]. intros f. apply clean_when. apply clean_send_message.
   - apply clean_bind; [apply clean_apply_many|]. intros _.
     apply (clean_bindR (fun o => match o with Some e => ~ bad e | None => True end)).
